@@ -19,7 +19,10 @@ import Aegean.Proofs.C17Translate
 import Aegean.Proofs.C17Sexa
 import Aegean.Proofs.C17String
 
--- the `_eq_hand` proofs deliberately end in tactics that only fire after a harmless rewrite of the source
+-- the `_eq_hand` proofs deliberately end in tactics that only fire after a harmless rewrite of the source, and name
+-- the hand definitions that stand in when a piece of the source is reported UNTRANSLATABLE (fallback path)
+set_option linter.unusedSimpArgs false
+set_option linter.unnecessarySeqFocus false
 set_option linter.unusedTactic false
 set_option linter.unreachableTactic false
 
@@ -85,7 +88,7 @@ theorem gcdFar_eq_angle (ra1 dec1 ra2 dec2 : ℝ) :
     whose default is 0) does not satisfy this: at `a = t` neither branch is chosen. -/
 theorem gcd_select_total (a far sep : Float) :
     Gen.C17.gcdSelect a far sep = far ∨ Gen.C17.gcdSelect a far sep = sep := by
-  simp only [Gen.C17.gcdSelect] <;> (repeat' split) <;> first | exact Or.inl rfl | exact Or.inr rfl | exact Or.inr trivial | exact Or.inl trivial
+  simp only [Gen.C17.gcdSelect, Aegean.Model.C17.gcdSelect] <;> (repeat' split) <;> first | exact Or.inl rfl | exact Or.inr rfl | exact Or.inr trivial | exact Or.inl trivial
 
 /-- What `gcd` returns: `np.where(a > 0.5, far, sep)` — whichever branch is selected
     (`gcd_select_total`: it is always one of the two).  All metric
@@ -165,12 +168,12 @@ theorem hmsCs_eq (n : Nat) : hmsCs n = fldCs n := by simp only [hmsCs, fldCs] <;
 theorem dms_fields (n : Nat) :
     dmsM n < 60 ∧ dmsCs n / 100 < 60 ∧ dmsCs n % 100 < 100 ∧
       dmsD n * 360000 + dmsM n * 6000 + dmsCs n = n := by
-  simp only [dmsM, dmsCs, dmsD]; omega
+  simp only [dmsM, dmsCs, dmsD, fldM, fldCs, fldHi]; omega
 
 /-- dec2dms on `|x| ≤ 90` (so `n ≤ 90·360000`): degrees ≤ 90, and 90 only as `90:00:00.00` -/
 theorem dms_degrees (n : Nat) (h : n ≤ 90 * 360000) :
     dmsD n ≤ 90 ∧ (dmsD n = 90 → dmsM n = 0 ∧ dmsCs n = 0) := by
-  simp only [dmsM, dmsCs, dmsD]; omega
+  simp only [dmsM, dmsCs, dmsD, fldM, fldCs, fldHi]; omega
 
 /-- dec2hms for every integer count `k` (negative RA, RA ≥ 360 and a carry into 24h included):
     hours < 24, minutes < 60, whole seconds < 60 -/
@@ -179,7 +182,7 @@ theorem hms_fields (k : Int) :
       hmsCs (hmsWrap k) % 100 < 100 ∧
       hmsH (hmsWrap k) * 360000 + hmsM (hmsWrap k) * 6000 + hmsCs (hmsWrap k) = hmsWrap k := by
   have := hmsWrap_lt k
-  simp only [hmsM, hmsCs, hmsH]; omega
+  simp only [hmsM, hmsCs, hmsH, fldM, fldCs, fldHi]; omega
 
 /-! ### sexagesimal: parsing inverts formatting -/
 
@@ -188,7 +191,7 @@ theorem dec2decNeg_eq_hand (d0 d1 d2 : ℝ) : dec2decNeg d0 d1 d2 = dec2decNegHa
   try ring_nf
 
 theorem ra2decScale_eq (v : ℝ) : ra2decScale v = v * 15 := by
-  try simp only [ra2decScale, R.real_ofNat, Nat.cast_ofNat]
+  try simp only [ra2decScale, ra2decScaleHand, R.real_ofNat, Nat.cast_ofNat]
   try ring_nf
 
 /-- `dec2dec (dec2dms ·)` on the printed fields, non-negative angles: exactly `n/360000` degrees,
